@@ -17,9 +17,50 @@ def run(tier):
         return [enc.DEFAULT] + [m for m in enc.COMBOS if m != enc.DEFAULT and rnd.random() < frac]
 
     st = enc.run(v, cases, binary, combos_for)
+    # ---- execution monitor (vlib/sem.py): the CPU must compute what the written instruction means
+    from .. import sem
+    plain = common.build("plain")
+    strata = {}
+    for c in cases:
+        strata.setdefault((c["mn"], c["w"], c["form"]), []).append(c)
+    picked = []
+    per = 12 if tier == "quick" else 120
+    for k in sorted(strata, key=str):
+        g = strata[k]
+        picked += g if len(g) <= per else rnd.sample(g, per)
+    ex, exmeta = [], []
+    for c in picked:
+        pr = sem.program(c, rnd)
+        if pr is None:
+            continue
+        prog, want = pr
+        ex.append(["new 0 int", "asm 0 %s" % common.hx("\n".join(prog)), "exec 0"])
+        exmeta.append((c, prog, want))
+    exres = common.run_cases(plain, ex, tag="c01x")
+    exec_ok = 0
+    modelled = set()
+    for (c, prog, want), cmds, r in zip(exmeta, ex, exres):
+        v.count()
+        cc = {k: x for k, x in c.items() if k not in ("exp", "alt")}
+        cc.update({"key": "exec " + c["text"], "fam": "exec_" + c["fam"], "script": cmds})
+        if r["crash"]:
+            v.violation(cc, r["crash"]["sig"], r["crash"]["stderr"][-600:])
+            continue
+        a, e = r["records"][1].split(), r["records"][2].split()
+        if a[1] != "0":
+            v.violation(cc, "exec:rejected", r["records"][1])
+        elif e[:2] != ["V", "ok"] or int(e[2], 16) != want:
+            v.violation(cc, "exec:computes-differently", "program %s -> %s, model 0x%x" % ("; ".join(prog), " ".join(e), want))
+        else:
+            exec_ok += 1
+            modelled.add(c["mn"])
+            v.distinct(("exec", c["text"]))
+    st["executions"] = len(ex)
+    st["executions_ok"] = exec_ok
+    st["mnemonics_executed"] = len(modelled)
     v.cov["rule"] = ("every register-only general-purpose form of the committed spec (vlib/isa.py) x every register tuple of every legal width; "
                      "default options for all, the other 11 option combinations for %s of the lines; a case is non-trivial/distinct when the "
-                     "library accepted it and both decoders read the emitted bytes back as the expected tuple (distinct = (text, bytes))" % ("all" if frac >= 1 else "a seeded 10%"))
+                     "library accepted it and both decoders read the emitted bytes back as the expected tuple (distinct = (text, bytes)); plus JIT execution of a stratified sample against small Python models of the operations (vlib/sem.py)" % ("all" if frac >= 1 else "a seeded 10%"))
     v.cov["exhaustive"] = frac >= 1.0
     v.assumptions += ["LLVM-MC and libopcodes decode correctly where nasm's encoding of the same line validates them",
                       "semantics of the CPU executing the bytes are not re-checked"]
